@@ -216,6 +216,7 @@ def run_case(case, res):
             if q_t.bits == 8 and (gs is not None or len(shape) == 1):
                 continue
             w = torch.randn(shape)
+            w_enc = api.enc_tensor(w)  # encoded BEFORE the call: a defect may overwrite it
             with Session(res) as m:
                 W = m.symbolic(w, "w")
                 m.protect(w, "caller tensor")
@@ -228,13 +229,14 @@ def run_case(case, res):
                     continue
                 wr = list(m.writes_to_protected)
                 unchanged = all(a is b for a, b in zip(m.read(w).reshape(-1), W.reshape(-1)))
-                det = api.equal_modulo_bits(m.ctx, d1, d2, q_t.bits if q_t.bits < 8 else None, None)
+                det = api.equal_modulo_bits(m.ctx, d1, d2, q_t.bits if q_t.bits < 8 else None, None) if (not wr and unchanged) else False
             ok = not wr and unchanged and bool(det)
             res.query("quantize_weight-does-not-modify-its-input", "ALG", "unsat" if ok else "sat", 0.0, sub=f"{shape} axis={axis} group={gs}", nvars=w.numel())
             if not ok:
-                res.candidate("nowrite-lib", "ALG", dict(kind="nowrite-lib", qtype=case["qtype"], w=api.enc_tensor(w), axis=axis, group_size=gs), note=f"writes={wr[:2]} unchanged={unchanged} deterministic={det}")
+                res.candidate("nowrite-lib", "ALG", dict(kind="nowrite-lib", qtype=case["qtype"], w=w_enc, axis=axis, group_size=gs), note=f"writes={wr[:2]} unchanged={unchanged} deterministic={det}")
         if q_t.bits == 8:
             x = torch.randn(2, 3)
+            x_enc = api.enc_tensor(x)
             s = torch.tensor(0.05)
             with Session(res) as m:
                 X, S = m.symbolic(x, "x"), m.symbolic(s, "s")
@@ -245,7 +247,7 @@ def run_case(case, res):
                 ok = not m.writes_to_protected and all(a is b for a, b in zip(m.read(x).reshape(-1), X.reshape(-1)))
             res.query("quantize_activation-does-not-modify-its-input", "ALG", "unsat" if ok else "sat", 0.0)
             if not ok:
-                res.candidate("nowrite-lib", "ALG", dict(kind="nowrite-act", qtype=case["qtype"], x=api.enc_tensor(x)))
+                res.candidate("nowrite-lib", "ALG", dict(kind="nowrite-act", qtype=case["qtype"], x=x_enc))
         return
 
     if case["kind"] == "faults":
